@@ -180,6 +180,46 @@ def product_map(o, n, templates_fn, u=None, suffix=None, eq="lawful", removal_va
                 o.end()
 
 
+WIDE = ((4, 4), (6, 4), (6, 5), (6, 6), (300, 9))
+
+
+def wide_map_product(o, templates_fn, suffix=None, inst_fn=None, sizes=WIDE):
+    """layouts of 4..9 entries (capacities 4, 6 and 300), with and without a preceding
+    swap-remove: every slot position of scans that work in blocks of 2, 4 or 8 is reached by
+    every per-key operation.  One insertion order per size (the permutations are covered at
+    sizes <= 3)."""
+    inst_fn = inst_fn or inst
+    for cap, L in sizes:
+        lay = list(range(L))
+        u = lay + [L]
+        for rem in (False, True):
+            for tmpl in templates_fn("m0", u, lay):
+                o.case(m0=cap, m1=cap, tag="w")
+                build_map(o, "m0", lay)
+                if rem:
+                    o.op("m0 remove q:0#0")
+                o.op(inst_fn(o, tmpl), test=True)
+                if suffix:
+                    suffix(o, u, lay)
+                o.end()
+
+
+def wide_set_product(o, templates_fn, suffix=None, sizes=WIDE):
+    for cap, L in sizes:
+        lay = list(range(L))
+        u = lay + [L]
+        for rem in (False, True):
+            for tmpl in templates_fn("s0", u):
+                o.case(s0=cap, s1=cap, tag="w")
+                build_set(o, "s0", lay)
+                if rem:
+                    o.op("s0 remove q:0#0")
+                o.op(inst(o, tmpl), test=True)
+                if suffix:
+                    suffix(o, u, lay)
+                o.end()
+
+
 # ---------------------------------------------------------------------------- random sequences
 
 def random_map_seq(o, rng, n, length, u, with_iters=True, with_forget=True, unsafe_ok=False,
@@ -329,6 +369,8 @@ def gen_C01(o, rng, tier):
                        with_forget=False)
         o.end()
     umap_product(o, 2, {'insert', 'lookup', 'remove', 'bulk'})
+    wide_map_product(o, lambda reg, u, lay: map_ops_basic(reg, u, full_args=False),
+                     suffix=lambda o, u, lay: sweep(o, "m0", u))
     if tier == "thorough":
         for ln in (1, 2, 3, 4):
             exhaustive_sequences(o, ln, "map")
@@ -359,6 +401,7 @@ def gen_C02(o, rng, tier):
 
     for nn in range(0, n + 1):
         product_map(o, nn, tmpls, suffix=suffix)
+    wide_map_product(o, tmpls, suffix=suffix, sizes=WIDE[:4])
     # sets: drains / consuming iterators
     for nn in range(0, n + 1):
         u = list(range(nn + 1))
@@ -576,6 +619,8 @@ def gen_C05(o, rng, tier):
         product_map(o, nn, tmpls, suffix=lambda o, u, lay: (
             o.op("m0 len"), o.op("m0 is_empty"), o.op("m0 capacity"), o.op("m0 iter iter 0 lnnnnnl"),
             sweep(o, "m0", u, "k")))
+    wide_map_product(o, tmpls, suffix=lambda o, u, lay: (
+        o.op("m0 len"), o.op("m0 iter iter 0 l" + "n" * (len(lay) + 2) + "l"), sweep(o, "m0", u, "k")))
     for _ in range(60 if tier == "quick" else 600):
         nn = rng.choice([1, 2, 3, 4, 6])
         o.case(m0=nn, m1=nn, s0=nn, s1=nn, tag="r")
@@ -661,6 +706,8 @@ def gen_C07(o, rng, tier):
                     o.op(f"s0 contains q:{c}#0")
                 o.op("s0 len")
                 o.end()
+    wide_set_product(o, set_ops_basic, suffix=lambda o, u, lay: (
+        [o.op(f"s0 contains q:{c}#0") for c in u], o.op("s0 len")))
     for _ in range(60 if tier == "quick" else 600):
         nn = rng.choice([1, 2, 3, 4, 6])
         o.case(s0=nn, s1=rng.choice([1, 2, 3, 4, 6]), tag="r")
@@ -778,6 +825,7 @@ def gen_C11(o, rng, tier):
                 o.op(inst_fin(o, tmpl), test=True)
                 suffix(o, u, lay)
                 o.end()
+    wide_map_product(o, tmpls, suffix=suffix, inst_fn=inst_fin)
     umap_product(o, 2, {'entry'})
 
 
@@ -812,6 +860,11 @@ def gen_C12(o, rng, tier):
                         o.op(f"s0 get q:{d}#0")
                     o.op("s0 iter nnnnn")
                     o.end()
+    wide_map_product(o, tmpls, suffix=lambda o, u, lay: (
+        [o.op(f"m0 get_key_value q:{c}#0") for c in u], o.op("m0 iter keys 0 " + "n" * (len(lay) + 2))))
+    wide_set_product(o, lambda reg, u: [t for c in u for t in (
+        f"{reg} insert {{k{c}}}", f"{reg} replace {{k{c}}}", f"{reg} get q:{c}#0", f"{reg} take q:{c}#0")],
+        suffix=lambda o, u, lay: ([o.op(f"s0 get q:{d}#0") for d in u], o.op("s0 iter " + "n" * (len(lay) + 2))))
     umap_product(o, 2, {'insert', 'lookup', 'remove', 'entry_ins'})
 
 
